@@ -508,7 +508,13 @@ struct QMessageLogger
 
 struct QCoreApplication
 {
-    static QString translate(const char *, const char *key, const char * = nullptr, int = -1) { return QString::fromUtf8(key); }
+    // the "translation" carries its CONTEXT: `<context>source` — so that the context the generated code passes (the
+    // document's type name, in bindings and in handlers) is part of every value / trace compared with Spec.Sem
+    // (Host.tr of the Lean driver is the same function)
+    static QString translate(const char *context, const char *key, const char * = nullptr, int = -1)
+    {
+        return QString::fromUtf8((std::string("<") + (context ? context : "(null)") + ">" + key).c_str());
+    }
 };
 
 class QWidget : public QObject
